@@ -380,6 +380,10 @@ MAINLOOP:
 		// If the config exists, update the new symlink-path
 		if newResolvedPath, symlinkErr := filepath.EvalSymlinks(cleanedPath); symlinkErr == nil {
 			resolvedCfgPath = newResolvedPath
+		} else if os.IsNotExist(symlinkErr) {
+			// the file vanished after it was read: look again (the
+			// not-exist branch deals with a dangling symlink)
+			signalRecheck()
 		}
 		if !watchingFile {
 			if addErr := ws.watcher.Add(cleanedPath); addErr != nil {
